@@ -23,7 +23,8 @@ def make_cfg(alg, priv, kt, elen, ulen, idx):
     user = ("u" * ulen) if ulen else ""
     klen = 16 if alg == "md5" else 20
     if kt == "password":
-        akm, pkm = b"authpass-%d" % idx, b"privpass-%d" % idx
+        # the same few passwords are shared by sessions of different digests / ciphers living in one process
+        akm, pkm = b"authpass-%d" % (idx % 3), b"privpass-%d" % (idx % 2)
     else:
         akm, pkm = bytes((i * 3 + idx) % 256 for i in range(klen)), bytes((i * 5 + idx + 1) % 256 for i in range(klen))
     return rawdrv.Cfg("v3", user=user, engine=engine, auth=alg, akt=kt, akm=akm, priv=priv, pkt=kt, pkm=pkm if priv != "none" else b"")
